@@ -738,7 +738,6 @@ func sConfigClone(c *Ctx, rule string) {
 	}
 }
 
-
 // sortSupportSound: Len and Swap of a sort.Interface implementation are the
 // textbook ones – a Less verified by an ordering oracle says nothing about the
 // result of sort.Sort when Swap does not exchange exactly elements i and j or
@@ -787,7 +786,6 @@ func sortSupportSound(c *Ctx, rule, typ string) {
 		c.Check(rule, typ+".Swap", c.P.Pos(fn.Pos()), "Swap exchanges exactly elements i and j (both old values read before either is overwritten)", ok, found, 1)
 	}
 }
-
 
 // S-CFGCODEC: the configuration that goes into a log entry, a snapshot
 // request or the bootstrap entry is the one that comes out again. Decides the
@@ -869,7 +867,6 @@ func sConfigCodec(c *Ctx, rule string) {
 		c.Check(rule, "config-wire-type:"+tn, c.P.Pos(n.Obj().Pos()), "every field of "+tn+" is exported, untagged and of an encodable kind (what is stored in the log is the whole membership)", bad == "" && nf > 0, pick(bad == "", fmt.Sprintf("%d fields", nf), bad), nf)
 	}
 }
-
 
 // S-VOTEID: the identity under which a vote is recorded is the identity the
 // duplicate-vote test compares, and it is never empty for a request that
